@@ -53,7 +53,7 @@ def sanitize(s):
 
 
 def write_replay(pid, o, rep):
-    d = os.path.join(VERIF, "replays")
+    d = os.environ.get("VERIF_REPLAY_DIR") or os.path.join(VERIF, "replays")
     os.makedirs(d, exist_ok=True)
     path = os.path.join(d, "%s-%s.json" % (pid, sanitize(o.id)))
     doc = {"property": pid, "obligation": o.id, "function": o.fn, "kind": o.kind, "backend": o.backend,
@@ -255,7 +255,8 @@ def write_evidence(pid, prop, ctx, tier, seed, ded, bnd, canary_res, known_hits,
     ev = {"property_id": pid, "tier": tier, "seed": seed, "level": level, "coverage": cov,
           "assumptions": list(prop.assumptions) + ["bounded stand-ins are labelled `bounded` and are not counted in `discharged`"],
           "wall_s": round(wall, 2), "violations": len(violations)}
-    d = os.path.join(VERIF, "evidence")
+    # tools that run the checks on deliberately changed trees (seed_eval, benign_eval) redirect their evidence elsewhere
+    d = os.environ.get("VERIF_EVIDENCE_DIR") or os.path.join(VERIF, "evidence")
     os.makedirs(d, exist_ok=True)
     with open(os.path.join(d, "%s.json" % pid), "w") as f:
         json.dump(ev, f, indent=1, default=str)
